@@ -144,6 +144,35 @@ def operator_grammar(rnd, nlev=None):
     return dict(terms=terms, nonterms=nonterms, precs=precs, rules=rules, start=0, operator=True)
 
 
+def layered_expr(rnd, nlev=None):
+    """Unambiguous expression grammar in layers:  L0 : L0 op L1 | ... | L1 ;  ... ;  Lk : '(' L0 ')' | u Lk | id
+    with 1-4 binary operators per layer (left recursive), so that one nonterminal is entered from several
+    contexts into a state that shifts several terminals."""
+    nlev = nlev or rnd.randint(1, 3)
+    ops = list("+-*/%^&=<>!~?")
+    rnd.shuffle(ops)
+    terms = []
+    def T(lit=None, name=None):
+        terms.append(dict(name=name or 'o%d' % len(terms), lit=lit, tag='v0', num=None, declared=True))
+        return ('t', len(terms) - 1)
+    ident = T(None, 'ID')
+    lp, rp = T('('), T(')')
+    nonterms = [dict(name='L%d' % i, tag='v0') for i in range(nlev + 1)]
+    rules = []
+    def R(lhs, rhs):
+        rules.append(dict(lhs=lhs, rhs=rhs, prec=None, c=len(rules) % 10, coef=[(3 * i + len(rules)) % 9 + 1 for i in range(len(rhs))]))
+    for lv in range(nlev):
+        for _ in range(rnd.choice([1, 2, 3, 3, 4])):
+            if ops:
+                R(lv, [('n', lv), T(ops.pop()), ('n', lv + 1)])
+        R(lv, [('n', lv + 1)])
+    R(nlev, [lp, ('n', 0), rp])
+    if ops and rnd.random() < 0.6:
+        R(nlev, [T(ops.pop()), ('n', nlev)])
+    R(nlev, [ident])
+    return dict(terms=terms, nonterms=nonterms, precs=[], rules=rules, start=0)
+
+
 def ring_grammar(rnd, k=None, nullable=False):
     """Mutual right recursion through k nonterminals (an includes-cycle of k transitions), each member also
     used from the start symbol behind a prefix of its own length and followed by its own terminator:
@@ -240,6 +269,7 @@ CURATED = {
     'ring2_nullable': ('S: A u | z B v ; A: a B | ; B: b A | f', ()),
     # one item set {B -> p q t . , C -> t . u} reached from two left contexts, through states whose kernel items arrive
     # in a different order (rule numbering: A < X < B < Y < C)
+    'expr3': ('E: E + T | E - T | T ; T: T * F | T / F | T % F | F ; F: ( E ) | - F | id', ()),
     'two_paths': ('A: q C ; X: p A ; B: p q t ; Y: p q C ; C: t u ; S: k X | k B | l Y | l B', ()),
 }
 
